@@ -30,7 +30,7 @@ type Failure struct {
 	Case     json.RawMessage `json:"case"`
 }
 
-// Known is one line of known_findings.jsonl.
+// Known is one line of known_findings.txt.
 type Known struct {
 	Status   string `json:"status"` // open | fixed
 	Property string `json:"property"`
@@ -196,7 +196,7 @@ func KeepSample(unit string, digest uint64, render func() interface{}) {
 
 func loadKnown() {
 	knownOnce.Do(func() {
-		f, err := os.Open(filepath.Join(Root(), "known_findings.jsonl"))
+		f, err := os.Open(filepath.Join(Root(), "known_findings.txt"))
 		if err != nil {
 			return
 		}
@@ -430,4 +430,47 @@ func sanitize(s string) string {
 		}
 	}
 	return sb.String()
+}
+
+// ReplayFunc re-runs the oracle on a saved case; it returns false if the unit
+// is not one of this package's.
+type ReplayFunc func(t *testing.T, f *Failure) bool
+
+// RunReplay implements TestReplay.
+func RunReplay(t *testing.T, replay ReplayFunc) {
+	f, err := ReplayCase()
+	if err != nil {
+		t.Skip("no replay file (VERIF_REPLAY)")
+	}
+	if !replay(t, f) {
+		t.Fatalf("unit %q is not replayable by this package", f.Unit)
+	}
+}
+
+// RunRegress implements TestRegress: every saved case under regress/<property>/
+// (cases of defects that were fixed, and hand-kept reproductions) is re-run
+// through the same oracle without the generator library.
+func RunRegress(t *testing.T, replay ReplayFunc) {
+	files, _ := filepath.Glob(filepath.Join(Root(), "regress", property, "*.json"))
+	sort.Strings(files)
+	n := 0
+	for _, p := range files {
+		b, err := os.ReadFile(p)
+		if err != nil {
+			continue
+		}
+		var f Failure
+		if json.Unmarshal(b, &f) != nil {
+			continue
+		}
+		ok := t.Run(filepath.Base(p), func(t *testing.T) {
+			if !replay(t, &f) {
+				t.Skip("other package")
+			}
+			n++
+			Case(Digest(b), true, "regress:"+filepath.Base(p))
+		})
+		_ = ok
+	}
+	Note("regress-files", fmt.Sprintf("%d saved cases re-run", n))
 }
